@@ -117,7 +117,7 @@ def fn_call(case):
         viols.append(("ctor:children", "dict arguments leaked into / removed children",
                       {"observed": [type(c).__name__ for c in t.children]}))
     # consolidate_attrs
-    args2 = ["c1"]
+    args2 = ["c1", None, 0, "", []]
     for i, d in enumerate(dicts):
         args2.append(to_dict(d))
         args2.append("c2" if i == 0 else child_tag)
@@ -129,7 +129,8 @@ def fn_call(case):
     if len(cc) != len(nd) or any(x is not y for x, y in zip(cc, nd)):
         viols.append(("consolidate:children", "consolidate_attrs did not return the non-dict arguments unchanged", {}))
     t2 = Tag("div", ca, *cc)
-    if not (t2 == t) or observed(t2.attrs) != got:
+    t_direct = Tag("div", *args2, **to_dict(kw))
+    if not (t2 == t_direct) or observed(t2.attrs) != got:
         viols.append(("consolidate:rebuild", "Tag(name, attrs, *children) from consolidate_attrs differs from direct construction",
                       {"rebuilt": observed(t2.attrs), "direct": got}))
     # the positional mappings may also be another tag's .attrs object (a TagAttrDict): same result as
